@@ -617,6 +617,23 @@ static void build(vf::Plan &plan, const vf::Opts &o)
                               });
         st.case_timeout_s = 20;
     }
+    {
+        auto cases = std::make_shared<std::vector<lp::LB>>(lp::cases_long_subject(T));
+        auto &st = plan.stage(strf("before/after:long subjects (4,097 .. %s bytes) with the separator at every offset around 256 / 1,024 / 4,096 from either end, with and without an "
+                                   "earlier occurrence", T ? "65,600" : "8,200"),
+                              cases->size(),
+                              [cases](uint64_t i, Ctx &c) {
+                                  std::string text, sep;
+                                  lp::make((*cases)[i], text, sep);
+                                  check_sides(c, text, sep);
+                                  c.nontrivial();
+                              },
+                              [cases](uint64_t i) {
+                                  const lp::LB &q = (*cases)[i];
+                                  return strf("subject of %u bytes, separator #%u at offset %u%s", q.L, q.sep, q.off, q.early ? " and at offset 10" : "");
+                              });
+        st.case_timeout_s = 30;
+    }
     // ---- separators / character sets that point into the subject's own storage: same result as for a separate copy
     if (!reduced) {
         const std::string AA("abA:\0", 5);
